@@ -277,6 +277,10 @@ func VX_C06_apply() {
 	steps := strings.Split(vx.ParamStr("steps"), ";")
 	mode := vx.ParamStr("mode") // apply | filtered | rownums
 	names := []string{"a", "b", "f", "c", "s", "e"}
+	if vx.HasParam("dup") {
+		// an enum whose declared values differ only in case (they become equal under ToUpper)
+		vxEnumVals = []string{"b", "B", "c"}
+	}
 	cols := []vxCol{vxMakeColLite("int", P), vxMakeColLite("int", P), vxMakeColLite("float", P), vxMakeColLite("bool", P), vxMakeColLite("string", P), vxMakeColLite("enum", P)}
 	if strings.Contains(vx.ParamStr("steps"), "upper") {
 		for _, c := range []vxCol{cols[4], cols[5]} {
